@@ -243,6 +243,29 @@ pub fn scenarios(tier: Tier) -> Vec<LinkScenario<fn() -> Box<dyn Probe>>> {
             });
         }
     }
+    // uptime classes: the same timing rules on connections that have been up for 7 and 100 days
+    for (uname, up) in [("7 days", 7u64 * 86_400_000), ("100 days", 100 * 86_400_000)] {
+        for dir in 0..2usize {
+            for (tname, dts) in [("dt=10ms", vec![10u64]), ("dt=R/3", vec![r / 3])] {
+                let mut cfg = LinkCfg::base(&format!("uptime {}: script 1+2401, {} dir{}", uname, tname, dir), chans(), chans());
+                let mut d = dts.clone();
+                while d.len() < 70 {
+                    d.push(dts[0]);
+                }
+                cfg.dt_ms = d;
+                cfg.initial_uptime_ms = up;
+                cfg.horizon = 3;
+                cfg.tail = if dts[0] == 10 { 65 } else { 12 };
+                cfg.drains = vec![Drain::End];
+                cfg.fates = vec![Fate::Ok, Fate::Drop];
+                cfg.script = vec![Send::at(0, dir, 0, 1), Send::at(0, dir, 0, 2401)];
+                out.push(LinkScenario {
+                    cfg,
+                    probe: (|| Box::new(TimingProbe::new()) as Box<dyn Probe>) as fn() -> Box<dyn Probe>,
+                });
+            }
+        }
+    }
     // long silence: the sent-packet horizon (3 s) expires before the delayed ack arrives
     for dir in 0..2usize {
         let mut cfg = LinkCfg::base(&format!("3.1s silence script 1+2401 dir{}", dir), chans(), chans());
